@@ -83,6 +83,8 @@ def generate(rng, i):
     env = gen_epi.gen_env(rng, pf)
     if rng.random() < 0.25:
         env["state"]["inherited"] = True        # observers whose callbacks are all inherited from a parent class
+    if rng.random() < 0.1 and not env["state"].get("inherited"):
+        env["state"]["twin_class"] = True       # a same-named observer class with fewer subscriptions was instanced earlier
     if rng.random() < 0.06:
         env["prior_env"] = True                 # the transmitter served another environment before this one was built
     if rng.random() < 0.06:
